@@ -138,8 +138,14 @@ def run(ctx):
     jm = repo.module('cirq-core/cirq/protocols/json_serialization.py')
     internal_read = set()
     internal_written = set()
+    # locals that hold the document's "cirq_type" entry: bound from an expression that subscripts / gets / pops the literal key
+    type_names = {'cirq_type'}
     for n in ast.walk(jm.tree):
-        if isinstance(n, ast.Compare) and isinstance(n.left, ast.Name) and n.left.id == 'cirq_type' and \
+        if isinstance(n, ast.Assign) and len(n.targets) == 1 and isinstance(n.targets[0], ast.Name) and \
+                any(isinstance(c, ast.Constant) and c.value == 'cirq_type' for c in ast.walk(n.value)) and not isinstance(n.value, ast.Dict):
+            type_names.add(n.targets[0].id)
+    for n in ast.walk(jm.tree):
+        if isinstance(n, ast.Compare) and isinstance(n.left, ast.Name) and n.left.id in type_names and \
                 isinstance(n.comparators[0], ast.Constant):
             internal_read.add(n.comparators[0].value)
         if isinstance(n, ast.Assign) and any(isinstance(t, ast.Name) and t.id == 'LEGACY_CONTEXT_TYPES' for t in n.targets) \
